@@ -117,6 +117,10 @@ def _ascii_const(f, op):
     v = const_int(op)
     if v is not None:
         return 0 <= v < 128
+    cs = flow.const_char_set(f, op)
+    if cs:
+        # a set of characters (`find(&['<', '>'][..])`): whichever matched is one byte long when all are ASCII
+        return all(0 <= ch < 128 for ch in cs)
     for o in flow.origins(f, op):
         if o.kind == "const":
             if "str" in o.const:
